@@ -273,8 +273,9 @@ def _branch_and_price(
         if frac_idx is None:
             # Integer feasible - update incumbent
             obj = sum(x for x in x_vals if x > eps)
-            if obj < best_obj - eps:
-                best_solution = _build_solution(x_vals, columns, eps)
+            candidate = _build_solution(x_vals, columns, eps)
+            if obj < best_obj - eps and _meets_demands(candidate, demands):
+                best_solution = candidate
                 best_obj = obj
 
                 # Check gap
@@ -476,6 +477,11 @@ def _build_solution(x_vals, columns, eps):
             if count > 0:
                 solution[columns[i]] = count
     return solution
+
+
+def _meets_demands(solution, demands):
+    """True if the integer plan produces at least the demanded number of every piece."""
+    return all(sum(col[i] * cnt for col, cnt in solution.items()) >= d for i, d in enumerate(demands))
 
 
 def _round_solution(x_vals, columns, demands, eps):
